@@ -67,6 +67,7 @@ type vScenario struct {
 	NoRelayExt  map[string]bool   `json:"norelayext"`  // proxies whose poll omits AcceptedRelayPattern
 	CC          map[string]string `json:"cc"`          // remote address (no port) -> country code in the test GeoIP tables ("??" = not listed)
 	GeoReload   bool              `json:"georeload"`   // herd: the operator's SIGHUP reload of the GeoIP tables while a wave is being served (C20)
+	RollStorm   int               `json:"rollstorm"`   // herd: the measurement period ends this many times in a row while each wave is being served (C19)
 	SameOffers  bool              `json:"sameoffers"`  // every client poll of the scenario is byte-identical (same offer, NAT, fingerprint): still one request each
 	OddText     bool              `json:"oddtext"`     // offers and answers carry control characters, markup characters and runes outside the BMP
 }
@@ -875,6 +876,9 @@ func (r *vRig) runSteps(sc *vScenario) {
 						r.ctx.metrics.zeroMetrics()
 					}()
 				}
+				if sc.RollStorm > 0 && n == 0 {
+					go r.storm(sc.RollStorm)
+				}
 				if sc.GeoReload && n == 1 {
 					go func() {
 						// what the SIGHUP handler of main() does
@@ -1039,11 +1043,47 @@ func (r *vRig) freshClients() []string {
 	return kinds
 }
 
+// storm ends the measurement period n times in a row while a wave of requests is being served (what
+// logMetrics does once a day, compressed): every period's printed figures are recorded; consecutive
+// identical ones are recorded once.
+func (r *vRig) storm(n int) {
+	last := ""
+	for i := 0; i < n; i++ {
+		r.mlog.Reset()
+		r.ctx.metrics.printMetrics()
+		text := r.mlog.String()
+		r.ctx.metrics.zeroMetrics()
+		m := vParseMetricsLog(text)
+		b, _ := json.Marshal(m)
+		if string(b) != last {
+			last = string(b)
+			r.emit(vEvent{"ev": "metrics-mid", "m": m})
+		}
+		runtime.Gosched()
+	}
+}
+
 func (r *vRig) metricsSnapshot() map[string]interface{} {
-	m := map[string]interface{}{}
 	r.mlog.Reset()
 	r.ctx.metrics.printMetrics()
-	for _, line := range strings.Split(r.mlog.String(), "\n") {
+	m := vParseMetricsLog(r.mlog.String())
+	mfs, _ := r.ctx.metrics.promMetrics.registry.Gather()
+	for _, mf := range mfs {
+		if !strings.HasPrefix(mf.GetName(), "snowflake_rounded_") {
+			continue
+		}
+		for _, mm := range mf.GetMetric() {
+			m["prom:"+strings.TrimPrefix(mf.GetName(), "snowflake_")+vLabels(mm)] = int(mm.GetCounter().GetValue())
+		}
+	}
+	return m
+}
+
+// vParseMetricsLog turns the lines of one printed period into a map (numbers under "log:<name>",
+// the per-country list under "cc").
+func vParseMetricsLog(text string) map[string]interface{} {
+	m := map[string]interface{}{}
+	for _, line := range strings.Split(text, "\n") {
 		f := strings.Fields(line)
 		if len(f) >= 1 && f[0] == "snowflake-ips" {
 			// per-country figures: CC=n,CC=n
@@ -1066,15 +1106,6 @@ func (r *vRig) metricsSnapshot() map[string]interface{} {
 			if n, err := strconv.Atoi(f[1]); err == nil {
 				m["log:"+f[0]] = n
 			}
-		}
-	}
-	mfs, _ := r.ctx.metrics.promMetrics.registry.Gather()
-	for _, mf := range mfs {
-		if !strings.HasPrefix(mf.GetName(), "snowflake_rounded_") {
-			continue
-		}
-		for _, mm := range mf.GetMetric() {
-			m["prom:"+strings.TrimPrefix(mf.GetName(), "snowflake_")+vLabels(mm)] = int(mm.GetCounter().GetValue())
 		}
 	}
 	return m
